@@ -175,6 +175,7 @@ variable (E : Env S) (cp : S → Nat) (pc : Nat → Bytes) (coldef : Nat → Nat
   (parse : Connection S → Bytes → Option (ComStmtExecute S)) (app : S → Option (ResultSet S))
   (ur : S → Bool) (fls : ComFieldList S → S) (fcd : Nat → S → Bytes → Bytes)
   (other : Nat → Connection S → Bytes → Except (Connection S) (Connection S)) (err : Connection S → Bytes)
+  (af : Nat → Connection S → Bytes → Option (Connection S))
 
 /-- the dispatch extends the effects (COM_QUIT writes nothing) -/
 def DExt (c : Connection S) : Except (Connection S) (Option (Connection S)) → Prop
@@ -234,45 +235,60 @@ theorem dispatch_ext (hother : ∀ k c d, Ext c (other k c d)) (c : Connection S
   exact List.prefix_refl _
 
 /-- one iteration only extends the effects -/
-theorem step_ext (hother : ∀ k c d, Ext c (other k c d)) (c : Connection S) (data : Bytes) :
-    c.out <+: (command_step E cp pc coldef parse app ur fls fcd other err c data).1.out := by
-  have h := command_step_spec E cp pc coldef parse app ur fls fcd other err c data
-  cases data with
-  | nil => dsimp only at h; rw [h]; exact List.prefix_append _ _
-  | cons command rest =>
-    dsimp only at h
-    have hd := dispatch_ext E cp pc coldef parse app ur fls fcd other hother ({ c with _executing := true } : Connection S) command.toNat rest
-    cases hx : dispatch E cp pc coldef parse app ur fls fcd other ({ c with _executing := true } : Connection S) command.toNat rest with
-    | error s =>
-      rw [hx] at h hd; dsimp only at h; rw [h]
-      exact List.IsPrefix.trans hd (List.prefix_append _ _)
-    | ok o =>
-      cases o with
-      | none => rw [hx] at h; dsimp only at h; rw [h]; exact List.prefix_append _ _
-      | some s =>
+theorem step_ext (hother : ∀ k c d, Ext c (other k c d)) (haf : ∀ k c d s, af k c d = some s → c.out <+: s.out) (c : Connection S) (data : Bytes) :
+    c.out <+: (command_step E cp pc coldef parse app ur fls fcd other err af c data).1.out := by
+  have h := command_step_spec E cp pc coldef parse app ur fls fcd other err af c data
+  dsimp only at h
+  cases ha : authEnded af c data with
+  | some s =>
+    rw [ha] at h; dsimp only at h; rw [h]
+    have hs : c.out <+: s.out := by
+      cases data with
+      | nil => simp [authEnded] at ha
+      | cons command rest =>
+        simp only [authEnded] at ha
+        by_cases hu : untranslated.contains command.toNat = true
+        · rw [if_pos hu] at ha; exact haf _ ({ c with _executing := true } : Connection S) _ _ ha
+        · rw [if_neg hu] at ha; cases ha
+    exact List.IsPrefix.trans hs (List.prefix_append _ _)
+  | none =>
+    rw [ha] at h; dsimp only at h
+    cases data with
+    | nil => dsimp only at h; rw [h]; exact List.prefix_append _ _
+    | cons command rest =>
+      dsimp only at h
+      have hd := dispatch_ext E cp pc coldef parse app ur fls fcd other hother ({ c with _executing := true } : Connection S) command.toNat rest
+      cases hx : dispatch E cp pc coldef parse app ur fls fcd other ({ c with _executing := true } : Connection S) command.toNat rest with
+      | error s =>
         rw [hx] at h hd; dsimp only at h; rw [h]
         exact List.IsPrefix.trans hd (List.prefix_append _ _)
+      | ok o =>
+        cases o with
+        | none => rw [hx] at h; dsimp only at h; rw [h]; exact List.prefix_append _ _
+        | some s =>
+          rw [hx] at h hd; dsimp only at h; rw [h]
+          exact List.IsPrefix.trans hd (List.prefix_append _ _)
 
 /-- **the loop only extends the effects**: whatever the conversation, everything that had been written stays written, in order -/
-theorem loop_ext (hother : ∀ k c d, Ext c (other k c d)) (c : Connection S) (ps : List Bytes) :
-    c.out <+: (command_loop E cp pc coldef parse app ur fls fcd other err c ps).1.out := by
+theorem loop_ext (hother : ∀ k c d, Ext c (other k c d)) (haf : ∀ k c d s, af k c d = some s → c.out <+: s.out) (c : Connection S) (ps : List Bytes) :
+    c.out <+: (command_loop E cp pc coldef parse app ur fls fcd other err af c ps).1.out := by
   induction ps generalizing c with
   | nil => exact List.prefix_refl _
   | cons p ps ih =>
     rw [loop_cons]
-    have hs := step_ext E cp pc coldef parse app ur fls fcd other err hother c p
-    by_cases hg : (command_step E cp pc coldef parse app ur fls fcd other err c p).2 = true
+    have hs := step_ext E cp pc coldef parse app ur fls fcd other err af hother haf c p
+    by_cases hg : (command_step E cp pc coldef parse app ur fls fcd other err af c p).2 = true
     · simp only [hg, if_true]; exact List.IsPrefix.trans hs (ih _)
     · simp only [hg]; exact hs
 
 /-- **what the client has been sent after `ps` is the beginning of what it has been sent after `ps ++ qs`** -/
-theorem loop_prefix (hother : ∀ k c d, Ext c (other k c d)) (c : Connection S) (ps qs : List Bytes) :
-    (command_loop E cp pc coldef parse app ur fls fcd other err c ps).1.out
-      <+: (command_loop E cp pc coldef parse app ur fls fcd other err c (ps ++ qs)).1.out := by
+theorem loop_prefix (hother : ∀ k c d, Ext c (other k c d)) (haf : ∀ k c d s, af k c d = some s → c.out <+: s.out) (c : Connection S) (ps qs : List Bytes) :
+    (command_loop E cp pc coldef parse app ur fls fcd other err af c ps).1.out
+      <+: (command_loop E cp pc coldef parse app ur fls fcd other err af c (ps ++ qs)).1.out := by
   rw [loop_append]
-  by_cases hq : (command_loop E cp pc coldef parse app ur fls fcd other err c ps).2 = true
+  by_cases hq : (command_loop E cp pc coldef parse app ur fls fcd other err af c ps).2 = true
   · simp only [hq, if_true]; exact List.prefix_refl _
-  · simp only [hq]; exact loop_ext E cp pc coldef parse app ur fls fcd other err hother _ qs
+  · simp only [hq]; exact loop_ext E cp pc coldef parse app ur fls fcd other err af hother haf _ qs
 
 end loop
 end MimicProofs.Monotone
